@@ -211,6 +211,21 @@ def ite(c, a, b):
     return sym_if(c, a, b)
 
 
+def same(x, y):
+    """Token identity of two arrays: equal shapes and, element by element, the very same symbol (symbolic tokens) or equal
+    numbers (concrete entries).  Never forks: a symbol compared with a number is simply 'different'."""
+    x, y = np.asarray(x), np.asarray(y)
+    if x.shape != y.shape:
+        return False
+    for p, q in zip(x.flat, y.flat):
+        if is_sym(p) or is_sym(q):
+            if p is not q:
+                return False
+        elif not _eq_scalar(p, q):
+            return False
+    return True
+
+
 def floor_(x):
     return x.__floor__() if isinstance(x, Sym) else math.floor(x)
 
